@@ -13,6 +13,7 @@ import (
 	"os"
 	"strings"
 	"sync"
+	"sync/atomic"
 	"time"
 
 	"github.com/Dash-Industry-Forum/livesim2/cmd/livesim2/app"
@@ -75,7 +76,16 @@ type Resp struct {
 	// Panic is non-empty if the handler panicked (recovered by the production middleware).
 	Panic      string
 	PanicFrame string
+	// Hang is set when the handler did not return within the real-time watchdog.
+	Hang bool
 }
+
+// Watchdog bounds every in-process request in real time (0 = none, e.g. inside synctest bubbles,
+// where a real timer must not be used).
+var Watchdog = 30 * time.Second
+
+// Poisoned is set once a handler goroutine had to be abandoned.
+var Poisoned atomic.Bool
 
 func (r *Resp) CT() string { return r.Header.Get("Content-Type") }
 
@@ -93,7 +103,6 @@ func (p *panicEntry) Panic(v interface{}, stack []byte) {
 	p.stack = string(stack)
 	p.mu.Unlock()
 }
-
 
 // TopAppFrame returns the first livesim2 function in a stack trace ("app.(*T).Method").
 func TopAppFrame(stack string) string {
@@ -159,7 +168,7 @@ func DoHandler(h http.Handler, method, target string, body []byte, hdr map[strin
 	req = middleware.WithLogEntry(req, pe)
 	rec := httptest.NewRecorder()
 	resp := &Resp{}
-	func() {
+	serve := func() {
 		defer func() {
 			if r := recover(); r != nil {
 				// not recovered by the SUT's own middleware (e.g. handler used without router)
@@ -167,7 +176,22 @@ func DoHandler(h http.Handler, method, target string, body []byte, hdr map[strin
 			}
 		}()
 		h.ServeHTTP(rec, req)
-	}()
+	}
+	if Watchdog <= 0 {
+		serve()
+	} else {
+		// Real-time watchdog (DESIGN §5.3): a handler that spins can never be seen by a simulated
+		// clock. On a trip the goroutine is abandoned and the process is marked poisoned: the worker
+		// records the scenario and ends, the orchestrator continues in a fresh process.
+		done := make(chan struct{})
+		go func() { defer close(done); serve() }()
+		select {
+		case <-done:
+		case <-time.After(Watchdog):
+			Poisoned.Store(true)
+			return &Resp{Status: -2, Header: http.Header{}, Hang: true}
+		}
+	}
 	resp.Status = rec.Code
 	resp.Header = rec.Header()
 	resp.Body = rec.Body.Bytes()
